@@ -966,7 +966,7 @@ def map_gmm_m_step(
     if reynolds_adaptation:
         alpha = statistics.n / (statistics.n + relevance_factor)
     else:
-        if not hasattr(alpha, "ndim"):
+        if np.ndim(alpha) == 0:
             alpha = np.full((machine.n_gaussians,), alpha)
 
     # - Update weights if requested
